@@ -131,6 +131,16 @@ pub struct Profile {
     pub variant_as: u32,
     /// generate `bson::oid::ObjectId` although its binding is a listed finding
     pub known_objectid: bool,
+    /// let an internally tagged newtype variant hold a unit struct by name (known finding)
+    pub known_internal_unit_by_name: bool,
+    /// percentage of modules laid out as one `index.ts` per directory (every file has the same
+    /// name; the directories are ancestors / descendants / siblings of each other)
+    pub index_layout: u32,
+    /// percentage of plain fields that get `#[ts(as = "<another user type>")]`, now and then with
+    /// `inline` (only where no values are compared)
+    pub field_as: u32,
+    /// percentage of field types that are `Result<A, B>` over the ordinary type expressions
+    pub result_types: u32,
 }
 
 impl Profile {
@@ -179,6 +189,10 @@ impl Profile {
             long_names: 0,
             variant_as: 0,
             known_objectid: false,
+            known_internal_unit_by_name: false,
+            index_layout: 0,
+            field_as: 0,
+            result_types: 0,
         }
     }
 }
@@ -216,8 +230,8 @@ const UNUSUAL_TYPE_NAMES: &[&str] = &["r#type_", "GrÃ¶ÃŸe", "T_1", "_Hidden", "Ã
 const RENAME_PLAIN: &[&str] = &["renamed", "Other", "x2", "camelName", "snake_name", "ID"];
 const RENAME_SPECIAL: &[&str] = &["kebab-name", "with space", "1leading", "dollar$", "Ã¼nÃ¯", "a.b", "a/b", "@at", "#hash", "in", "ä¸­æ–‡", "xÂ²", "aÂ½b", "â…§", "xÙ£", "preisâ‚¬", "a\u{a0}b", ""];
 const RENAME_ESCAPE: &[&str] = &["quo\"te", "back\\slash", "new\nline", "tab\there", "a\"b\\c"];
-const TAGS: &[&str] = &["tg", "kind_", "$t", "t-g", "T G", "Å§", "__tag"];
-const CONTENTS: &[&str] = &["ct", "content_", "$c", "c-t", "C T", "Ã§", "__content"];
+const TAGS: &[&str] = &["tg", "kind_", "$t", "t-g", "T G", "Å§", "__tag", "event_type", "msg_kind", "TagName"];
+const CONTENTS: &[&str] = &["ct", "content_", "$c", "c-t", "C T", "Ã§", "__content", "event_data", "msg_body", "ContentName"];
 const DOC_LINES: &[&str] = &[
     " A plain doc line.",
     " second line, with `code` and <html>",
@@ -234,6 +248,10 @@ const DOC_LINES: &[&str] = &[
     " format placeholders {0} {1} {2} and {{doubled}} braces",
     " json like {\"a\": [1, 2]} in a doc",
     " percent %s and dollar ${x} and `${y}`",
+    " 1) an item, closed but never opened :)",
+    " closing ] and } without openers",
+    " opens ( [ { and leaves them open",
+    " a 3.5\" disk",
 ];
 const DOC_NASTY: &[&str] = &[" closes */ early", " glob **/*.rs here", " */"];
 
@@ -372,25 +390,45 @@ fn is_copy(ty: &TyExpr) -> bool {
 }
 
 impl Cx<'_> {
+    /// flattenable and without type parameters (usable as `User(idx, [])`)
     fn flattenable(&self, idx: usize) -> bool {
+        self.types[idx].params.is_empty() && self.flattenable_generic(idx)
+    }
+
+    /// a definition whose values are all written as JSON objects - possibly a generic one (the
+    /// arguments do not matter: a parameter is only ever the type of a field or of a payload)
+    fn flattenable_generic(&self, idx: usize) -> bool {
         let td = &self.types[idx];
-        if !td.params.is_empty() || !td.lifetimes.is_empty() || !td.consts.is_empty() {
+        if !td.lifetimes.is_empty() || !td.consts.is_empty() {
             return false;
         }
+        // an internally tagged newtype variant around a bare parameter needs an object there
+        if td.attrs.repr() == Repr::Internal && td.all_fields().iter().any(|f| matches!(f.ty, TyExpr::Param(_))) && matches!(td.body, Body::Enum(_)) {
+            let bare_newtype = matches!(&td.body, Body::Enum(vs) if vs.iter().any(|v| matches!(&v.body, VBody::Newtype(f) if matches!(f.ty, TyExpr::Param(_)))));
+            if bare_newtype {
+                return false;
+            }
+        }
+        // without serde in the module nothing is serialised: whatever ts-rs accepts goes
+        let ts_only = !self.p.serde;
         match &td.body {
-            Body::Named(fs) => fs.iter().any(|f| !f.skip) && td.attrs.type_override.is_none(),
+            // (a struct all of whose fields are skipped is written as nothing: fine as well)
+            Body::Named(fs) => !fs.is_empty() && td.attrs.type_override.is_none(),
             // flattening an enum: serde needs every value to serialise as a map
             Body::Enum(vs) => {
                 !vs.is_empty()
                     && match td.attrs.repr() {
                         // (a newtype variant whose field is skipped is written like a unit variant)
+                        // (an `untagged` variant is written as its payload alone: only a
+                        // struct variant is a map then)
                         Repr::External => vs.iter().filter(|v| !v.skip).all(|v| match &v.body {
                             VBody::Unit => false,
-                            VBody::Newtype(f) => !f.skip,
-                            _ => true,
+                            VBody::Newtype(f) => !f.skip && (!v.untagged || ts_only),
+                            VBody::Named(_) => true,
+                            _ => !v.untagged || ts_only,
                         }),
-                        Repr::Internal | Repr::Adjacent => vs.iter().all(|v| !v.untagged),
-                        Repr::Untagged => false,
+                        Repr::Internal | Repr::Adjacent => vs.iter().all(|v| !v.untagged || ts_only),
+                        Repr::Untagged => ts_only && vs.iter().filter(|v| !v.skip).all(|v| !matches!(v.body, VBody::Unit)),
                     }
             }
             _ => false,
@@ -430,6 +468,11 @@ impl Cx<'_> {
             return None;
         }
         let idx = t.choose(self.types.len());
+        Some(self.gen_user_at(t, params, depth, idx))
+    }
+
+    /// the definition `idx` with generated type arguments
+    fn gen_user_at(&mut self, t: &mut Tape, params: &[Param], depth: u32, idx: usize) -> TyExpr {
         let n = self.types[idx].params.len();
         let mut args = vec![];
         for k in 0..n {
@@ -464,13 +507,15 @@ impl Cx<'_> {
                 }
             }
         }
-        Some(TyExpr::User(idx, args))
+        TyExpr::User(idx, args)
     }
 
     fn gen_key(&mut self, t: &mut Tape) -> TyExpr {
         let unit_enums: Vec<usize> = (0..self.types.len()).filter(|i| self.unit_enum(*i)).collect();
         let ints = if self.p.serde_buffer_safe { 0 } else { 1 };
-        match t.weighted(&[40, 12 * ints, 8 * ints, 8 * ints, 6, 6 * ints, if unit_enums.is_empty() { 0 } else { 30 }]) {
+        // (`char` keys: TypeScript can only say `string`, and a witness key longer than one
+        // character is rejected by serde - kept out where witnesses are deserialised)
+        match t.weighted(&[40, 12 * ints, 8 * ints, 8 * ints, 6 * ints, 6 * ints, if unit_enums.is_empty() { 0 } else { 30 }]) {
             0 => TyExpr::Prim("String"),
             1 => TyExpr::Prim("i32"),
             2 => TyExpr::Prim("u8"),
@@ -492,6 +537,12 @@ impl Cx<'_> {
     fn gen_ty(&mut self, t: &mut Tape, params: &[Param]) -> TyExpr {
         if self.p.library_types && t.pct(65) {
             return self.gen_lib(t, params, 0);
+        }
+        if self.p.result_types > 0 && t.pct(self.p.result_types) {
+            let a = self.gen_ty_inner(t, params, 1, false);
+            let b = self.gen_ty_inner(t, params, 1, false);
+            let r = TyExpr::Lib("Result", vec![a, b]);
+            return if t.pct(30) { TyExpr::Vec(Box::new(r)) } else { r };
         }
         self.gen_ty_inner(t, params, 0, false)
     }
@@ -790,6 +841,10 @@ impl Cx<'_> {
                     }
                 }
             }
+            // tag and content keys: two flattened enums with one tag name write the key twice
+            for k in [&td.attrs.tag, &td.attrs.content].into_iter().flatten() {
+                out.insert(Names::key(k));
+            }
         }
         out
     }
@@ -810,7 +865,10 @@ impl Cx<'_> {
             // the same definition must not be flattened twice into one object (duplicate keys
             // in serde's output are a user error, not a binding defect)
             let cands: Vec<usize> = (0..self.types.len())
-                .filter(|i| self.flattenable(*i))
+                .filter(|i| self.flattenable_generic(*i))
+                // known finding (C03 import-unused-default-of-inlined-generic) - flattening goes
+                // the same way as inlining: a user type as parameter default stays a dependency
+                .filter(|i| self.p.known_inline_default || !self.types[*i].params.iter().any(|p| matches!(p.default, Some(TyExpr::User(..)))))
                 .filter(|i| {
                     let mut c = std::collections::BTreeSet::new();
                     self.flatten_closure(*i, &mut c);
@@ -823,7 +881,7 @@ impl Cx<'_> {
                 let mut c = std::collections::BTreeSet::new();
                 self.flatten_closure(target, &mut c);
                 self.flattened_here.extend(c);
-                f.ty = TyExpr::User(target, vec![]);
+                f.ty = self.gen_user_at(t, params, 1, target);
                 // flatten through a transparent wrapper (`Box<Enum>`, `Arc<Struct>`)
                 if t.pct(25) {
                     f.ty = TyExpr::Wrap(*t.pick(&["Box", "Rc", "Arc"]), Box::new(f.ty));
@@ -861,6 +919,21 @@ impl Cx<'_> {
         }
         if f.type_override.is_none() && !f.inline && f.optional.is_none() && t.pct(self.p.as_attr) {
             f.as_same = true;
+        }
+        // `#[ts(as = "Other")]` (+ `inline`): the binding - and the dependencies - are those of the
+        // other type, the field's own type does not show
+        // (more often on unnamed fields: a newtype has a code path of its own)
+        if self.p.field_as > 0 && f.type_override.is_none() && !f.as_same && f.optional.is_none() && !f.flatten && t.pct(self.p.field_as * if named { 1 } else { 3 }) {
+            let cands: Vec<usize> = (0..self.types.len()).filter(|i| self.types[*i].params.is_empty() && self.types[*i].lifetimes.is_empty() && self.types[*i].consts.is_empty()).collect();
+            if !cands.is_empty() {
+                let u = TyExpr::User(*t.pick(&cands), vec![]);
+                f.as_type = Some(match t.choose(4) {
+                    0 => TyExpr::Vec(Box::new(u)),
+                    1 => TyExpr::Option(Box::new(u)),
+                    _ => u,
+                });
+                f.inline = t.pct(50);
+            }
         }
         f
     }
@@ -1036,7 +1109,34 @@ impl Cx<'_> {
                         let cands: Vec<usize> = (0..self.types.len())
                             .filter(|i| self.struct_like(*i) || (!self.p.serde_buffer_safe && matches!(self.types[*i].body, Body::Enum(_)) && self.flattenable(*i)))
                             .collect();
-                        if cands.is_empty() || f.skip {
+                        // .. or as nothing at all: `()` and unit structs are written as the tag alone
+                        let units: Vec<usize> = (0..self.types.len())
+                            .filter(|i| matches!(self.types[*i].body, Body::Unit) && self.types[*i].params.is_empty() && self.types[*i].lifetimes.is_empty() && self.types[*i].consts.is_empty() && self.types[*i].attrs.type_override.is_none() && self.types[*i].attrs.as_type.is_none())
+                            .collect();
+                        if !f.skip && t.pct(15) {
+                            if !units.is_empty() && t.pct(50) {
+                                f.ty = TyExpr::User(*t.pick(&units), vec![]);
+                                // known finding (C01 internally-tagged-variant-holding-unit-struct-by-name):
+                                // `{ "t": "V" } & Unit` with `type Unit = null` is `never`
+                                f.inline = !self.p.known_internal_unit_by_name || t.pct(50);
+                            } else {
+                                f.ty = TyExpr::Prim("()");
+                                f.inline = false;
+                            }
+                            f.as_same = false;
+                            f.type_override = None;
+                            f.optional = None;
+                        } else if !f.skip && t.pct(8) {
+                            // .. or as an externally tagged enum of the standard library: the name of
+                            // `Result<A, B>` is a union, `{ "t": "V" } & ({ Ok : A } | { Err : B })`
+                            let a = self.gen_ty_inner(t, &params, 1, true);
+                            let b = self.gen_ty_inner(t, &params, 1, true);
+                            f.ty = TyExpr::Lib("Result", vec![a, b]);
+                            f.inline = false;
+                            f.as_same = false;
+                            f.type_override = None;
+                            f.optional = None;
+                        } else if cands.is_empty() || f.skip {
                             body = VBody::Unit;
                         } else {
                             f.ty = TyExpr::User(*t.pick(&cands), vec![]);
@@ -1095,6 +1195,16 @@ impl Cx<'_> {
                 let cands: Vec<usize> = (0..self.types.len()).filter(|i| self.types[*i].params.is_empty() && self.types[*i].lifetimes.is_empty() && self.types[*i].consts.is_empty()).collect();
                 for v in variants.iter_mut() {
                     if matches!(v.body, VBody::Unit) && !v.untagged && !cands.is_empty() && t.pct(self.p.as_attr * 2) {
+                        v.as_type = Some(TyExpr::User(*t.pick(&cands), vec![]));
+                    }
+                }
+            }
+            // .. and on a unit variant that is written without tag (`untagged` on the variant or on
+            // the enum): there the binding of the variant *is* the `as` type
+            if self.p.variant_as > 0 {
+                let cands: Vec<usize> = (0..self.types.len()).filter(|i| self.types[*i].params.is_empty() && self.types[*i].lifetimes.is_empty() && self.types[*i].consts.is_empty()).collect();
+                for v in variants.iter_mut() {
+                    if matches!(v.body, VBody::Unit) && (v.untagged || repr == Repr::Untagged) && !cands.is_empty() && t.pct(self.p.variant_as * 4) {
                         v.as_type = Some(TyExpr::User(*t.pick(&cands), vec![]));
                     }
                 }
@@ -1257,7 +1367,10 @@ fn fix_unused_params(td: &mut TypeDef, ts_only_variations: bool, choice: u32) {
         if used {
             continue;
         }
-        let extra = Field { ident: Some(format!("extra_{}", p.to_lowercase())), ty: TyExpr::Param(p.clone()), ..Field::default() };
+        // (the name carries the type's name: a generic type flattened into another generic type
+        // must not bring a second `extra_t` key)
+        let slug: String = td.ident.chars().filter(|c| c.is_ascii_alphanumeric()).map(|c| c.to_ascii_lowercase()).collect();
+        let extra = Field { ident: Some(format!("extra_{}_{}{}", p.to_lowercase(), slug, td.ident.chars().count())), ty: TyExpr::Param(p.clone()), ..Field::default() };
         let concretised = td.params.iter().any(|q| q.name == p && q.concrete.is_some());
         let any_concretised = td.params.iter().any(|q| q.concrete.is_some());
         if ts_only_variations && !concretised && !any_concretised && choice % 3 == 0 {
@@ -1511,6 +1624,14 @@ pub fn gen_module(words: &[u32], profile: &Profile, name: &str) -> Module {
     }
     if t.pct(profile.cycles) {
         add_cycle(&mut cx, &mut t);
+    }
+    // one `index.ts` (`mod.ts`) per directory, the directories nested in each other
+    if t.pct(profile.index_layout) {
+        let file = *t.pick(&["index.ts", "index.ts", "mod.ts", "types.d.ts"]);
+        let chain = ["", "models/", "models/sub/", "models/sub/deeper/", "models_v2/", "./"];
+        for td in cx.types.iter_mut() {
+            td.attrs.export_to = Some(format!("{}{file}", t.pick(&chain)));
+        }
     }
     name_games(&mut cx, &mut t);
     let mut insts = vec![];
